@@ -17,6 +17,16 @@ CLAIMED = {
         "Unbounded theorems: __cmp__ returns only -1/0/1 for all trees; on well-formed trees it is 0 exactly when eq, antisymmetric and transitive; RCPBasicKeyLess is a strict weak order whose incomparability is eq; an ordered container filled by successive insertion is independent of insertion order. Tied by comparing the full __cmp__ and eq matrices of generated pools (model vs library) and by checking range, cmp=0<=>eq, antisymmetry on all pairs and transitivity on all triples of the library's own results.",
         "Trusted: as C01. Known finding (listed): NaN doubles compare as greater in both directions (excluded from the theorems by the well-formedness guard, with a refutation theorem).",
         "7 (C02)"),
+    "C03": (
+        "Rocq proof over an executable transcription of add/mul/pow/div/neg (add.cpp, mul.cpp, pow.cpp, rational.cpp; one fuelled function for the mutual recursion; dictionaries looked up as the containers do) and a deep `canonical` predicate transcribing the classes' is_canonical + exact correspondence of every API call + the extracted canonical predicate run on every implementation result",
+        "Unbounded theorems: add on the exact fragment (exact numbers, symbols, constants, opaque function atoms, sums) and mul/pow(Integer exponent)/div/neg on the power-product fragment (integer or rational powers of atoms, products) are total and return canonical, well-formed results that are again legal operands; lifted to every program of such calls (guards checked dynamically); results do not depend on fuel. Function constructors, rational powers of numbers and inexact numbers are covered by correspondence and by the structural validator only. Refutation witnesses document the non-canonical results that remain (known findings).",
+        "Trusted: Coq kernel; extraction; hand transcription validated by exact correspondence of result trees and hashes; Reals axioms enter through Flocq in the number model; known findings (listed): 2*0**x, pow(0, I), complex-coefficient Mul key, sign(1+2I), ...",
+        "7 (C03)"),
+    "C04": (
+        "Rocq proof (same arithmetic model) of commutativity/associativity/permutation invariance + exhaustive permutation-and-bracketing enumeration on the library",
+        "Unbounded theorems: add is commutative and associative, the n-ary add is invariant under permutation and equals the nested binary add (lists of any length); mul is commutative and associative on the sorted power-product fragment. Outside that fragment (rational powers of numbers, products or powers as bases) associativity of mul is refuted by witnesses (known-finding classes). The check builds all permutations x all bracketings + the n-ary call of generated multisets on the library and compares results by eq and by dump.",
+        "Trusted: as C03; known findings (listed): eight non-uniqueness classes of mul/add grouping (sqrt(2)*sqrt(2)*2**x, nested Add key, product/complex/nested-power bases, perfect-power bases).",
+        "7 (C04)"),
     "C05": (
         "Rocq proof over an executable model of the Number double dispatch (Integer/Rational/Complex arithmetic, pow_number, pow_negint, powrat, canonicalisation) + exact correspondence of results against the rebuilt library",
         "Unbounded theorems in Q(i): add, sub, mul, div and integer powers (either sign) of integers, rationals and Gaussian rationals of any size return exactly the mathematical result; results are normalised (lowest terms, positive denominator, Integer when the denominator is 1, real when the imaginary part is 0); x/0 = zoo and 0/0 = nan at every entry point; the square-and-multiply loop equals iterated multiplication. Tied by comparing canonical result dumps on palette pairs, boundary exponents and random multi-limb values; oracles in the driver recompute the Q(i) value with raw GMP.",
@@ -27,6 +37,11 @@ CLAIMED = {
         "Theorems for every ordered pair of number kinds and all values (every double bit pattern): a+b = b+a and a*b = b*a through Number methods, NaN absorbs every operation, the infinity rules (oo + -oo, 0*oo, sign rule, oo/oo), float-never-exact (guarded, with the refuted class RealDouble * Integer 0), Basic-level mul commutativity, Basic-level add commutativity guarded (refuted: zero shortcut with a float operand). Tied exhaustively over all ordered pairs of a 43-value palette x {add, sub, mul, div, pow} through Number methods and Basic add/mul.",
         "Trusted: Coq kernel; Flocq's binary64 as the meaning of IEEE arithmetic (Reals axioms reported); std::pow / libgcc complex division not modelled (skipped in correspondence, oracles still run); known findings listed by key.",
         "7 (C06)"),
+    "C07": (
+        "Rocq proof (same arithmetic model) of value preservation in Q(i) under every valuation + independent exact/numeric evaluator as oracle",
+        "Unbounded theorems: add, mul, neg, pow with an Integer exponent and div preserve the value in Q(i) under every valuation of symbols and constants (definedness guards for zero denominators); expressions the library considers eq have equal values. Radical extraction (rpowrat), nested-power folding with non-integer exponents and complex principal-branch semantics are NOT proved: an independent evaluator (exact in Q(i), otherwise cmath away from cuts) compares recipe and result at real and Gaussian-rational points (testing, labelled).",
+        "Trusted: as C03.",
+        "7 (C07)"),
     "C12": (
         "Rocq proof over rule tables REGENERATED from eval_double.cpp on every run (translators/tr_evalrules.py): per-class formulas over abstract libm symbols, interpreted over the reals (Coquelicot/Rtrigo) + bit-exact correspondence of eval_double / single dispatch / lambda against a Flocq binary64 model",
         "Theorems: for 35 node classes the formula that the visitor evaluator AND the single-dispatch table compute, interpreted with ideal real functions, is the mathematical function of the class (inverse functions by principal range + inverted function; E**x = exp x); the single-dispatch table equals the visitor table on its 44 classes (computed) and the two evaluators return the same result on every tree over those classes in any float algebra (axiom-free). What the theorems do not reach: the rounding error of libm and of the composition - covered by a long-double reference oracle with conditioning estimate (testing, labelled).",
@@ -72,6 +87,11 @@ CLAIMED = {
         "Unbounded theorems for any element type with a zero test (rows*cols < 2^31): get returns the dense entry; set keeps canonical format and performs exactly the dense update; after EVERY history of in-range set/get operations every step succeeds and equals the dense mirror; from_coo sums duplicates and is canonical; binop (add, sub, elementwise product), transpose, conjugate, scale rows/columns, diagonal, jacobian, matrix product (canonical result equal to the dense product) agree with dense semantics; is_canonical decides canonical format exactly. Tied by comparing p_, j_, x_ exactly after every command of generated programs (exhaustive small universes included) and by an independent dense mirror in the driver.",
         "Trusted: Coq kernel; extraction; hand transcription validated by exact correspondence; the NotImplementedError methods and the csr-to-csr eq path are covered by correspondence only.",
         "7 (C25)"),
+    "C26": (
+        "Rocq proof over an executable model of matrices/*.cpp (matrix_add, matrix_mul, hadamard_product, transpose, conjugate, trace, size, the predicate visitors; Gaussian-rational entries, integer or symbolic dimensions, MatrixSymbol leaves) with a dense denotation + exact correspondence + independent dense oracle",
+        "Unbounded theorems (any sizes, nesting, environments): matrix_add, hadamard_product, transpose, conjugate denote the dense operation; matrix_mul under the zero-factor guard; size and trace are sound; is_real/is_square unconditionally and is_diagonal/is_symmetric/is_lower/is_upper/is_toeplitz on well-formed expressions never contradict the dense value; DomainErrors are never spurious; well-formedness is preserved by every API call; no out-of-range access in predicates and unary operations.",
+        "Trusted: Coq kernel; extraction; hand transcription validated by correspondence; known findings (listed): zero factor with unknown outer size, non-canonical folded results.",
+        "7 (C26)"),
     "C27": (
         "Rocq proof over an executable model of sets.cpp / set_funcs.cpp on intervals, finite sets, the number sets, unions, intersections and complements (containers ordered by the modelled RCPBasicKeyLess; one fuelled function for the mutual recursion; results carry defect flags) + tree-for-tree correspondence",
         "Unbounded theorems (any nesting) with membership semantics over germ points (every real, distinguishing Reals from Rationals): set_union, set_intersection, set_complement (member and free functions, helper) have pointwise membership semantics; contains agrees with membership; closure/interior/boundary and sup/inf partial (not for Union/Intersection/Complement operands; unboundedness of infinite sup/inf not proved). Theorems apply when the model raised no defect flag; flagged classes have refutation witnesses and known-finding keys. Tied by comparing result trees exactly on complete small universes and random trees, a spec oracle at all germ points on both results, and the library's own contains on endpoints/midpoints/neighbours.",
